@@ -282,6 +282,11 @@ func classifyBody(b string) Denotation {
 				return integerDenotation(FormHex, hexToInt(rest), len(rest))
 			}
 		}
+		if (b[1] == 'b' || b[1] == 'B' || b[1] == 'o' || b[1] == 'O') && looseBinOct(rest) {
+			// e.g. "0B0e+0": Go's rational syntax reads a binary/octal mantissa with a DECIMAL 'e' exponent
+			// (e is not a binary digit). 0b/0o literals are outside the grammar the property names.
+			return Denotation{Class: Unspecified, Reason: "Go 0b/0o literal (with '_' separators, fraction or e/p exponent)"}
+		}
 		if loosePrefixed(rest) {
 			return Denotation{Class: Unspecified, Reason: "Go base-prefixed literal (0b/0o, '_' separators or hexadecimal float)"}
 		}
@@ -437,6 +442,24 @@ func looseExponent(s string, markers string) bool {
 
 // loosePrefixed recognises what may follow a 0b/0o/0x prefix in Go's literal syntax:
 // hex digits, '_' and at most one '.', at least one digit, then an optional p exponent.
+// looseBinOct: digits/underscores/one dot, then an optional e/E/p/P exponent.
+func looseBinOct(rest string) bool {
+	i, digits, dots := 0, 0, 0
+	for i < len(rest) && ((rest[i] >= '0' && rest[i] <= '9') || rest[i] == '_' || rest[i] == '.') {
+		if rest[i] >= '0' && rest[i] <= '9' {
+			digits++
+		}
+		if rest[i] == '.' {
+			dots++
+		}
+		i++
+	}
+	if digits == 0 || dots > 1 {
+		return false
+	}
+	return looseExponent(rest[i:], "eEpP")
+}
+
 func loosePrefixed(rest string) bool {
 	i, digits, dots := 0, 0, 0
 	for i < len(rest) && (isHex(rest[i]) || rest[i] == '_' || rest[i] == '.') {
